@@ -76,6 +76,26 @@ impl<'a> SectionsBuilder<'a> {
         }
     }
 
+    /// like `process_blocks`, but the blocks continue the sibling chain of the current node
+    fn append_blocks(&mut self, range: Range, content: &DocumentBlocks) {
+        if range.is_empty() {
+            return;
+        }
+        let first_header = first_header(range.clone(), content).unwrap_or(range.end);
+        for i in range.start..first_header {
+            self.builder.set_insert(false);
+            self.block(&content[i]);
+        }
+        for i in first_header..range.end {
+            // headings after the leading list become further sections of the item
+            self.builder.set_insert(false);
+            match &content[i] {
+                Header(_) => self.section_block(&content[i]),
+                _ => self.block(&content[i]),
+            }
+        }
+    }
+
     pub fn process_section(&mut self, range: Range, blocks: &DocumentBlocks) {
         // section always starts with a header
         // 1. append the header
@@ -98,6 +118,24 @@ impl<'a> SectionsBuilder<'a> {
         self.section_block(&blocks[range.start]);
 
         let id = self.builder.id();
+
+        // an item that starts with a list is merged into the enclosing list: what follows
+        // the leading list belongs to the last merged item, after the children it already
+        // has (inserting it as the first child would cut those off)
+        if matches!(blocks[range.start], BulletList(_) | OrderedList(_)) {
+            let mut last_child = self.builder.graph().graph_node(id).child_id();
+            while let Some(next) = last_child.and_then(|child| self.builder.graph().graph_node(child).next_id()) {
+                last_child = Some(next);
+            }
+            if let Some(last_child) = last_child {
+                self.builder.set_id(last_child);
+                self.append_blocks(range.start + 1..range.end, blocks);
+                self.builder.set_id(id);
+                self.builder.set_insert(false);
+                return;
+            }
+        }
+
         self.process_blocks(range.start + 1..range.end, blocks);
         self.builder.set_id(id);
         // back on the section itself: whatever comes next is its sibling, even if the
